@@ -341,6 +341,59 @@ func ruleExportIDMap(c *eng.Ctx) {
 		return true
 	})
 	c.Check(writes >= 1 && reads >= 1, rule, "basicExport:key-change-map", fi.Decl.Pos(), "changed ids are recorded and applied to foreign keys", fmt.Sprintf("key-change map writes=%d reads=%d", writes, reads))
+	// the old→new map lives for the whole export: it is created outside every loop, so an id that
+	// changed while one collection was written is still known when another collection refers to it
+	var cacheObj types.Object
+	ast.Inspect(fi.Decl.Body, func(m ast.Node) bool {
+		if as, ok := m.(*ast.AssignStmt); ok {
+			for _, l := range as.Lhs {
+				if ix, ok := ast.Unparen(l).(*ast.IndexExpr); ok {
+					if mt, ok := info.TypeOf(ix.X).Underlying().(*types.Map); ok && mt.Key().String() == "string" && mt.Elem().String() == "string" {
+						if o := eng.ObjOf(info, ix.X); o != nil {
+							cacheObj = o
+						}
+					}
+				}
+			}
+		}
+		return true
+	})
+	if cacheObj == nil {
+		c.Unknown(rule, "basicExport:key-change-map-spans-the-export", fi.Decl.Pos(), "anchor-unresolved: the old→new identifier map")
+		return
+	}
+	inLoop := false
+	var walk func(n ast.Node, depth int)
+	walk = func(n ast.Node, depth int) {
+		ast.Inspect(n, func(m ast.Node) bool {
+			switch x := m.(type) {
+			case *ast.ForStmt:
+				walk(x.Body, depth+1)
+				return false
+			case *ast.RangeStmt:
+				walk(x.Body, depth+1)
+				return false
+			case *ast.FuncLit:
+				return false
+			case *ast.AssignStmt:
+				for _, l := range x.Lhs {
+					if id, ok := l.(*ast.Ident); ok && info.Defs[id] == cacheObj && depth > 0 {
+						inLoop = true
+					}
+				}
+			case *ast.ValueSpec:
+				for _, id := range x.Names {
+					if info.Defs[id] == cacheObj && depth > 0 {
+						inLoop = true
+					}
+				}
+			}
+			return true
+		})
+	}
+	walk(fi.Decl.Body, 0)
+	c.Check(!inLoop, rule, "basicExport:key-change-map-spans-the-export", cacheObj.Pos(), "the old→new identifier map is created once per export",
+		"the old→new identifier map is created inside a loop, so it is emptied for every collection (or document): a foreign key pointing at a document of an earlier collection whose identifier changed is written with the identifier re-derived from the target's current values — its old one — and dangles after import")
 }
 
 // ruleExportSelfRef: while exporting, a document is recognised as referencing itself by comparing
